@@ -207,6 +207,12 @@ def check_site(unit, fn, call, name):
         # a local computed from something that never mentions the allocation size (the free space of a ring, a
         # length field of the message, ...) is no bound for this buffer
         le = A.strip_casts(ln)
+        if le.get("kind") in ("CallExpr", "CXXMemberCallExpr", "BinaryOperator", "ConditionalOperator"):
+            # the length is computed in place (`f(ring)`): the same question, asked of the expression itself
+            names = _origin_names(unit, le, 0)
+            if "?" not in names and capname not in names and cap not in names:
+                detail["len_is"] = "%s (computed from %s)" % (A.src(le), sorted(names)[:6])
+                return False, detail
         if le.get("kind") == "DeclRefExpr":
             ld = unit.by_id.get((le.get("referencedDecl") or {}).get("id"))
             if ld is not None and ld.get("kind") == "VarDecl" and A.kids(ld):
